@@ -23,8 +23,13 @@ type Exec struct {
 
 // runExec runs one execution: mk returns fresh thread bodies writing into results.
 func runExec(mk func(results []CallRes) []func(), n int, prefix []int, mapChoices bool) Exec {
+	return runExecF(mk, n, prefix, mapChoices, nil)
+}
+
+func runExecF(mk func(results []CallRes) []func(), n int, prefix []int, mapChoices bool, siteOK func(string, int) bool) Exec {
 	results := make([]CallRes, n)
 	s := verifrt.NewSched(prefix, mapChoices)
+	s.SiteOK = siteOK
 	s.Run(mk(results)...)
 	ch := make([]int, len(s.Points))
 	for i, p := range s.Points {
@@ -37,6 +42,7 @@ type Explorer struct {
 	Mk         func(results []CallRes) []func()
 	N          int
 	MapChoices bool
+	SiteOK     func(string, int) bool
 	Bound      int
 	Part       int
 	Parts      int
@@ -73,7 +79,7 @@ func (e *Explorer) explore(prefix []int, usedCost int, depth int) {
 		e.Capped = true
 		return
 	}
-	x := runExec(e.Mk, e.N, prefix, e.MapChoices)
+	x := runExecF(e.Mk, e.N, prefix, e.MapChoices, e.SiteOK)
 	if x.Diverged != "" {
 		panic("harness: schedule replay diverged: " + x.Diverged)
 	}
